@@ -13,7 +13,7 @@ from vf.ref import incremental as refinc
 
 ID = "C05"
 BOUNDS = {
-    "quick": "component level: every synthetic work graph with <=2 delivery groups (any parent relation) and either <=2 tasks (any non-empty group subset, sync/async, success/failure, optional nested group+task or nested stream) or <=1 task + 1 root stream (9 scripts x capacity 1|2 x eager/lazy) x every order of task completions, stream steps and consumer pulls; end to end: the 20 C04 requests x faults x early execution x propagation x every completion order",
+    "quick": "component level: every synthetic work graph with <=2 delivery groups (any parent relation) and either <=2 tasks (any non-empty group subset, sync/async, success/failure, optional nested group+task or nested stream) or 1 group, <=1 simple task + 1 root stream (13 scripts x capacity 1|2 x eager/lazy) x every order of task completions, stream steps and consumer pulls; end to end: the 20 C04 requests x faults x early execution x propagation x every completion order",
     "thorough": "(<=3 groups, <=3 tasks), (<=2 groups, <=2 tasks, 1 stream), (<=2 groups, <=1 task, 2 streams); early release <=1 end to end",
 }
 RULE = (
@@ -33,7 +33,7 @@ ASSUMPTIONS = [
 def shards(tier):
     out = []
     # (max groups, max tasks, streams) families
-    fams = [(2, 2, 0), (2, 1, 1)] if tier == "quick" else [(3, 3, 0), (2, 2, 1), (2, 1, 2)]
+    fams = [(2, 2, 0), (1, 1, 1)] if tier == "quick" else [(3, 3, 0), (2, 2, 1), (2, 1, 2)]
     for G, T, ns in fams:
         for g in range(1, G + 1):
             for parents in itertools.product(*[range(i + 1) for i in range(g)]):
@@ -61,6 +61,10 @@ STREAM_SCRIPTS = [
     ["fail"],
     ["i", "n", "end"],  # n: item carrying a nested deferred group
     ["f", "fail"],
+    ["i", "f", "end"],
+    ["i", "f", "i", "end"],
+    ["i", "i", "f", "fail"],
+    ["i", "f", "f", "end"],
 ]
 TASK_MODES = ["sync_ok", "async_ok", "sync_fail", "async_fail"]
 NESTED = ["none", "group", "stream"]
@@ -170,6 +174,7 @@ def scenario_graph(c, parents, n_streams, T):
                 n = 0
                 for step in script:
                     if step == "end":
+                        await w.gate(f"{name}:srcend", None, kind="src")
                         return
                     if step == "fail":
                         await w.gate(f"{name}:fail", None, kind="src")
@@ -207,8 +212,9 @@ def scenario_graph(c, parents, n_streams, T):
                    if not any(a in s for i in s for a in ancestors(i))]
         for t in range(n_tasks):
             sub = c.pick(subsets, f"t{t}.groups", cost=0)
-            mode = c.pick(TASK_MODES, f"t{t}.mode", cost=0)
-            nested = c.pick(NESTED, f"t{t}.nested", cost=0) if mode.endswith("ok") else "none"
+            lean = n_streams > 0 and T <= 1  # quick tier: streams are explored next to one simple task
+            mode = c.pick(["async_ok", "sync_fail"] if lean else TASK_MODES, f"t{t}.mode", cost=0)
+            nested = c.pick(["none", "group"] if lean else NESTED, f"t{t}.nested", cost=0) if mode.endswith("ok") else "none"
             desc["tasks"].append({"groups": list(sub), "mode": mode, "nested": nested})
             tasks.append(make_task(f"t{t}", list(sub), mode, nested))
         streams = []
